@@ -587,6 +587,57 @@ fn run_trace(seed: u64, nops: usize, c: &mut Counters) {
 				}
 				c.op("threads-first-use");
 			}
+			19 if rng.chance(1, 3) => {
+				// values borrowed from a container read through from_slice: with the null codec they may point into the file,
+				// with a compressed codec the reader must refuse (or own the data); whatever it hands out stays valid while
+				// it moves on to the next blocks and after it is gone
+				let schema: Schema = "\"string\"".parse().unwrap();
+				let codec = *rng.pick(&[0usize, 1, 2, 2]);
+				let comp = match codec {
+					1 => Compression::Deflate { level: CompressionLevel::new(1) },
+					2 => Compression::Snappy,
+					_ => Compression::Null,
+				};
+				let expected: Vec<String> = (0..5).map(|i| format!("value-{i}-{}", "x".repeat(8 + rng.below(24)))).collect();
+				let mut cfg = SerializerConfig::new(&schema);
+				let file = (|| {
+					let mut w = WriterBuilder::new(&mut cfg).compression(comp).approx_block_size(20).sync_marker([3; 16]).build(Vec::new()).ok()?;
+					for v in &expected {
+						w.serialize(v).ok()?;
+					}
+					w.into_inner().ok()
+				})();
+				if let Some(file) = file {
+					let mut kept: Vec<&str> = Vec::new();
+					{
+						let mut r = Reader::from_slice(&file).unwrap();
+						loop {
+							match r.deserialize_next_borrowed::<&str>() {
+								Ok(Some(s)) => kept.push(s),
+								_ => break,
+							}
+							if kept.len() > 8 {
+								break;
+							}
+						}
+					}
+					let scratch: Vec<Vec<u8>> = (0..4).map(|i| vec![0xC0 + i as u8; 48 << i]).collect();
+					for (i, s) in kept.iter().enumerate() {
+						if expected.get(i).map(|e| e.as_str()) != Some(*s) {
+							c.mismatches.push(format!("value borrowed from a container block changed afterwards (codec {codec})"));
+							break;
+						}
+					}
+					drop(scratch);
+					c.op(match (codec, kept.is_empty()) {
+						(0, _) => "borrowed-from-container:null",
+						(1, true) => "borrowed-from-container:deflate-refused",
+						(1, false) => "borrowed-from-container:deflate-served",
+						(_, true) => "borrowed-from-container:snappy-refused",
+						(_, false) => "borrowed-from-container:snappy-served",
+					});
+				}
+			}
 			19 if rng.chance(1, 2) => {
 				// the caller's source panics at some call (what a user's `impl BufRead` may do); the panic is caught, the
 				// reader is then used again and dropped: everything it owns must be released exactly once
